@@ -1,7 +1,7 @@
 #!/usr/bin/env python3
 """tools/design_part2.py — rewrite 'Part II — as built' of DESIGN.md from notes/design_part2.md.in and the current tables."""
 import subprocess
-V = "/verif"
+V = __import__("os").path.dirname(__import__("os").path.dirname(__import__("os").path.abspath(__file__)))   # the tree this tool belongs to (a helper clone works too)
 s = open(V + "/DESIGN.md").read()
 marker = "\n# Part II — as built\n"
 if marker in s:
